@@ -654,6 +654,24 @@ CLAIMED["C19"]["text"] += (" Round 9 (gapj): vlib/cmdreach.py -- EVERY SFC_* enu
 CLAIMED["C07"]["text"] += " Round 9 (gapj): vlib/heapcodec.py for C07 -- the bytes of a 3-frame file and of a file with a partial last block, every codec, under three allocator fills ('repeating the run later or in another process'); replay `c07-heapfill <byte>`."
 
 
+CLAIMED["C03"]["text"] += (" Round 9 (covgap): the BROKEN-'fmt ' DETECTOR no campaign entered (wavlike_analyze / audio_detect / vote_for_format; a PCM / 24-bit / block align 4 x channels 'fmt ' chunk makes the WAV and RF64 readers "
+                           "guess float vs PCM_32 from the bytes at absolute offset 600) is modelled bug for bug as Sf.AudioDetect (three of vote_for_format's four tests ignore the loop index) -- SfProps/C03AudioDetect.lean: the answer is 0 / PCM_32 / "
+                           "FLOAT for every buffer (scan_range), the installed format word / bytewidth / blockwidth are consistent for every file and route (analyze_consistent), votes bounded by twice the piece (vote_bounds), float vote all-or-nothing, "
+                           "the PCM_24 and default arms are dead (analyze_outcome), short files and pipes keep the 24-bit reading. vlib/c03detect.py: a deterministic family (votes float / PCM_32 at 768 and 769 groups / nothing, second and third piece, "
+                           "file lengths 599..600+4096+4095, PAD chunk pushing the data behind offset 600, 1-8 channels, WAV + RF64, neighbours outside the class) through vio / fd / pipe, compared with `sfmodel audiodetect` on the votes of every examined piece, "
+                           "the outcome line, SF_INFO.format, frames and a raw read of two installed blocks; LIST/exif sub-chunk family (sizes 0, odd, larger than the LIST, 4094..4096, larger than the 4 KiB buffer, 0xFFFFFFFF, unterminated emdl, olym) "
+                           "monitored through every route and added to the fuzz dictionary and the interaction round.")
+CLAIMED["C09"]["text"] += (" Round 9 (covgap): sf_perror, sf_error_str and sf_write_sync (never called by any campaign) -- Sf.ErrApi / SfProps/C09ErrApi.lean: sf_error_str is a bounded copy (bytes at index >= maxlen untouched, terminated when maxlen > 0, "
+                           "a prefix of the table's string, the whole string when it fits), the three calls are the identity on error state / positions / file (purity; writeSync_twin). vlib/c09errapi.py + harness/errapi.c: 18 handle states "
+                           "(NULL handle fresh / after failed opens, read / write / rdwr handles without and with a pending error of 8 distinct codes), buffer lengths 0, 1, 2, strlen-1 .. strlen+2, strlen+40 on an exact-size heap block (ASan) and under a "
+                           "32-byte guard band, compared byte for byte with `sfmodel errapi`; stderr of sf_perror captured; sf_error / sf_strerror equal before and after every call; sf_write_sync twins for the writable formats x {vio, fd, fd0, path} x "
+                           "{write, rdwr, read}, judged by Sf.AbsTwin.twinOk.")
+
+
+CLAIMED["C14"]["text"] += (" Round 9 (covgap): sf_open ('-') = psf_set_stdio AS A ROUTE (harness routes stdio / stdiopipe: a scratch file or a pipe behind descriptor 0, a scratch file behind descriptor 1; vlib/c14stdio.py: every writable format except SD2 -- written bytes and "
+                           "results equal the virtual-I/O route, reads equal, pipe = sequential vio read, SFM_RDWR refused) found KF-C14-STDIO-CLOSE: sf_close (and a failed open) closed the process's stdin / stdout, descriptors the library never opened (the POSIX branch of psf_set_stdio "
+                           "left do_not_close_descriptor clear, the Windows-API branch sets it). REPAIRED (two lines); Sf.RoutesStdio `setStdio` / `setStdioOld`, SfProps/C14Stdio.lean: stdio_close_leaves_descriptor (all handler results, all OS answers), stdio_close_old_rule, setStdio_is_openPath.")
+
 def main():
     checks = []
     for p in PROPS:
